@@ -558,7 +558,7 @@ def teardown_shell(_):
 def gen_shell(rng, tier):
     from . import c19
 
-    n = 6 if tier == "quick" else 60
+    n = 6 if tier == "quick" else 30
     for t in range(n):
         cmd = ["transform", "simphenotype", "ld"][t % 3]
         ids = rng.sample(c19.HAPS[:3], rng.randint(1, 3)) if rng.random() < 0.6 else None
@@ -653,7 +653,7 @@ OUT_NAMES = ["sim.vcf", "SIM.VCF", "sim.vcf.gz", "my sim.bcf", "out/sim.vcf", "s
 
 
 def gen_simgt_shell(rng, tier):
-    n = len(OUT_NAMES) if tier == "quick" else 36
+    n = len(OUT_NAMES) if tier == "quick" else 18
     for t in range(n):
         yield {"inputs": rng.randrange(2**31), "seed": rng.choice([0, 7, 12345]), "out": OUT_NAMES[t % len(OUT_NAMES)], "pop": t % 2 == 1 or rng.random() < 0.6, "sample": rng.random() < 0.6}
 
